@@ -152,13 +152,13 @@ def dw_real_modified(S, d, lmin, lmax0, version, max_evals, box):
 
 
 BOUNDS = {
-    'quick': {'dimension-wise states (points per dim, lmin, lmax0)': [((6, 5), 1, 2), ((7, 5), 1, 2), ((6, 6), 1, 2), ((10, 9), 1, 3)],
-              'versions': [6, 3], 'boundary/basis': ['boundary', 'no boundary', 'modified basis'], 'histories': 'd=2 (1,2), k<=2 steps, 1 selected interval (or all) per step',
+    'quick': {'dimension-wise states (points per dim, lmin, lmax0)': [((6, 5), 1, 2), ((7, 5), 1, 2), ((6, 6), 1, 2), ((10, 9), 1, 3), ((10, 9), 2, 3)],
+              'versions': [6, 3], 'boundary/basis': ['boundary', 'no boundary', 'modified basis'], 'histories': 'd=2 (1,2) k<=2 steps, (2,3) k<=1, 1 selected interval (or all) per step',
               'real estimator + modified basis': 'd=2 (1,2), up to 3 rounds'},
     'thorough': {'dimension-wise states (points per dim, lmin, lmax0)': [((6, 5), 1, 2), ((7, 5), 1, 2), ((6, 6), 1, 2), ((7, 6), 1, 2), ((7, 7), 1, 2), ((10, 9), 1, 3), ((10, 10), 1, 3),
                                                                           ((10, 9), 2, 3), ((6, 5, 5), 1, 2)],
                  'versions': [6, 2, 3, 7, 8], 'boundary/basis': ['boundary', 'no boundary', 'modified basis'],
-                 'histories': 'd=2: (1,2) k<=3, (1,3) k<=2; d=3 (1,2) k<=2; 1 selected interval (or all) per step', 'real estimator + modified basis': 'd=2,3 (1,2), up to 3 rounds'},
+                 'histories': 'd=2: (1,2) k<=3, (1,3) k<=2, (2,3) k<=2; d=3 (1,2) k<=2; 1 selected interval (or all) per step', 'real estimator + modified basis': 'd=2,3 (1,2), up to 3 rounds'},
 }
 
 META = {
@@ -192,7 +192,7 @@ def jobs(tier):
                 js.append(Job('dwstate[pts=%s,l=%d-%d,v=%d,%s]' % ('x'.join(map(str, npts)), lmin, lmax0, version, 'mod' if modified else ('b' if boundary else 'nb')), dw_state,
                               {'npts': list(npts), 'lmin': lmin, 'lmax0': lmax0, 'version': version, 'boundary': boundary, 'modified': modified, 'box': list(box)},
                               validate=(5 if q else 2)))
-    hist = [(2, 1, 2, 2)] if q else [(2, 1, 2, 3), (2, 1, 3, 2), (3, 1, 2, 2)]
+    hist = [(2, 1, 2, 2), (2, 2, 3, 1)] if q else [(2, 1, 2, 3), (2, 1, 3, 2), (2, 2, 3, 2), (3, 1, 2, 2)]
     for (d, lmin, lmax0, k) in hist:
         for version in b['versions']:
             for (boundary, modified) in ((True, False), (False, False), (False, True)):
